@@ -40,7 +40,9 @@ CONSTANTS Impl,        \* FALSE: intended semantics; TRUE: code-shaped semantics
           MaxCommits,  \* bound on committed batches per key
           Tags,        \* content tags of caller-made arrays (subset of 1..9)
           MaxOps,      \* bound on the number of operations of a behaviour
-          Record       \* TRUE: keep the operation sequence in `path' (one state per behaviour)
+          Record,      \* TRUE: keep the operation sequence in `path' (one state per behaviour)
+          Getters      \* FALSE: leave out the pure getters (heap no-ops; the harness calls all of them
+                       \* after every step anyway) - used to enumerate longer operation sequences
 
 VARIABLES s,      \* the heap + StateManager + what the caller holds (record, see Init)
           last,   \* the operation just performed (label for the replay)
@@ -354,7 +356,7 @@ CallerScribbleList == \E l \in s.lext : s.lst[l] # <<>> /\
 CallerScribbleResDict == \E k \in RK : s.rheld /\ s.cache.on /\ s.cache.c[k] # 0 /\
                     Step([s EXCEPT !.cache.c[k] = 0], Lbl("scribble_resdict", k, 0, 0, FALSE))
 
-Next == \/ GetCurrent \/ GetHistory \/ GetHistoryIdx \/ GetLastHistory \/ GetHistoryLength \/ ComputeLogw
+Next == \/ (Getters /\ (GetCurrent \/ GetHistory \/ GetHistoryIdx \/ GetLastHistory \/ GetHistoryLength \/ ComputeLogw))
         \/ SetCurrent \/ SetCurrentHeld \/ SetCurrentBeta \/ UpdateCurrent \/ Commit
         \/ ComputeResults \/ ToDict \/ MakeDict \/ UpdateFromDict \/ FromDict \/ SaveState \/ LoadState
         \/ CallerScribble \/ CallerScribbleList \/ CallerScribbleResDict
